@@ -35,6 +35,14 @@ SCRIPTS = {
     "stor-no-data": ["PASV", "STOR new"],
     "pasv-idle": ["PASV", "@data"],
 }
+# sessions that end with QUIT while the peer does not read the replies (only the position after the QUIT is examined)
+QUIT_SCRIPTS = {
+    "quit": ["QUIT"],
+    "pwd+quit-pipelined": ["PWD\r\nQUIT"],
+    "pwd+syst+quit-pipelined": ["PWD\r\nSYST\r\nQUIT"],
+    "retr-quit": ["EPSV", "@data", "RETR d/f", "QUIT"],
+}
+SCRIPTS.update(QUIT_SCRIPTS)
 UPLOAD = ("STOR", "APPE")
 DOWNLOAD = ("RETR", "LIST", "MLSD")
 
@@ -248,7 +256,11 @@ def build_items(tier):
     cfgs = list(itertools.product((None, IDLE), (None, SOCK), (None, WF)))
     for cfg in cfgs:
         items.append(({"chatty": True, "cfg": list(cfg)}, 0, []))
+        for name, script in QUIT_SCRIPTS.items():
+            items.append(({"cfg": list(cfg), "script": name, "k": len(script), "kind": "noread"}, 0, []))
         for name, script in SCRIPTS.items():
+            if name in QUIT_SCRIPTS:
+                continue
             for k in range(0, len(script) + 1):
                 items.append(({"cfg": list(cfg), "script": name, "k": k, "kind": "silent"}, 0, []))
                 last = (["USER anonymous"] + script)[k]
@@ -270,7 +282,8 @@ def run(tier, seed, t0):
     part = report.merge_all(report.pmap(_work, items))
     bounds = {"configs": "all 8 combinations of idle_timeout {None,30}, socket_timeout {None,7}, wait_future_timeout {None,3}",
               "scripts": list(SCRIPTS), "stall_positions": "after every script event (one event per virtual second)",
-              "stall_kinds": ["silent", "noread (peer window closed)", "never connects data (scripts *-no-data)"],
+              "stall_kinds": ["silent", "noread (peer window closed)", "never connects data (scripts *-no-data)",
+                              "QUIT (alone or pipelined behind other commands) from a peer that does not read the replies"],
               "chatty": "command every idle-1 s for 5 periods",
               "user_manager": "stock, and one whose logout notification takes 5 s (silent stalls)", "horizon_s": HORIZON, "cases": len(items)}
     return report.finish(
